@@ -35,7 +35,11 @@ RULE = ("(1) exhaustive: all products U_ab U_cd with a,b,c,d in {p,q,r} under "
         "different spaces/spins, negative powers of the unitary tensor.  A "
         "case is non-trivial if the implementation performs at least one "
         "replacement or refuses a pair that shares an index; distinct = "
-        "distinct (input text, targets).")
+        "distinct (input text, targets).  Generated inputs are well-formed "
+        "(props/c20.py well_formed): addends of a sum factor carry the same "
+        "free indices, Einstein targets of all expanded terms coincide, no "
+        "non-target index more than twice in an expanded sum; ill-formed "
+        "draws are regenerated and counted.")
 TRUSTED = ["tracer harness/c20_util.Trace (sys.setprofile) reads the argument "
            "of every call of the closure simplify_term_unitary",
            "numeric evaluator harness/numeric.py + Cayley orthogonal matrices "
@@ -271,6 +275,96 @@ CORPUS = [
      "terms": [{"coef": "1", "facs": [["U", "A0", [["i", ""], ["j", ""]], 1],
                                       ["U", "A0", [["k", ""], ["j", ""]], 1]]}]},
 ]
+
+
+# ------------------------------------------------------- well-formed inputs
+def _sum_factors(term):
+    """non-inverted sum factors (Add, or Add**n with n > 0) of a sympy term"""
+    from sympy import Mul, Pow
+    out = []
+    for f in Mul.make_args(term):
+        if isinstance(f, Add):
+            out.append(f)
+        elif isinstance(f, Pow) and isinstance(f.args[0], Add) \
+                and f.args[1].is_Integer and f.args[1] > 0:
+            out.append(f.args[0])
+    return out
+
+
+def _counts(sym, ictx):
+    """index -> number of occurrences (exponents counted) in a sympy term"""
+    cnt = {}
+    for i in adcio.term_indices(adcio.conv_term(sym, ictx)):
+        cnt[i] = cnt.get(i, 0) + 1
+    return cnt
+
+
+def well_formed(E):
+    """None if the generated expression is well-formed, else the reason.
+    (b) all addends of a (non-inverted) sum factor carry the same free
+        indices - indices occurring once in the addend; provided target
+        indices are exempt (the sum is then a pointwise function of them);
+    (c) without provided targets the Einstein targets of all fully expanded
+        terms of the expression coincide;
+    (a) in expressions with a sum factor every non-target index occurs at
+        most twice in every fully expanded term (exponents counted).
+    Products without sum factors may carry an index three or more times: the
+    library's index counter gives them a meaning, tests/simplify_test.py uses
+    them ("index occurs at 3 objects") and the property's second clause is
+    about them."""
+    import sympy
+    ictx = adcio.IdxCtx()
+    ptg = E.provided_target_idx
+    tg = set() if ptg is None else {ictx.conv(x) for x in ptg}
+    e = E.sympy
+    has_sum = False
+    try:
+        for term in Add.make_args(e):
+            for sf in _sum_factors(term):
+                has_sum = True
+                frees = set()
+                for addend in Add.make_args(sf):
+                    cnt = _counts(addend, ictx)
+                    frees.add(frozenset(i for i, n in cnt.items()
+                                        if n == 1 and i not in tg))
+                if len(frees) > 1:
+                    return "sum factor with addends of different free indices"
+        if ptg is None or has_sum:
+            ex = sympy.expand(e)
+            etg = set()
+            for term in Add.make_args(ex):
+                if term == 0:
+                    continue
+                cnt = _counts(term, ictx)
+                if has_sum and any(n > 2 for i, n in cnt.items()
+                                   if i not in tg):
+                    return "index more than twice in an expanded sum"
+                if ptg is None:
+                    etg.add(frozenset(i for i, n in cnt.items() if n == 1))
+            if len(etg) > 1:
+                return "expanded terms with different Einstein targets"
+    except adcio.Unsupported:
+        return None
+    return None
+
+
+def generate(ctx, gen, n, stats, dropped):
+    """n well-formed specs from the generator gen() (ill-formed ones are
+    regenerated and counted)"""
+    out, tries = [], 0
+    while len(out) < n and tries < 20 * n + 100:
+        tries += 1
+        spec = gen()
+        try:
+            why = well_formed(U.build_expr(spec))
+        except Exception:  # noqa: let run_specs report it
+            why = None
+        if why is None:
+            out.append(spec)
+        else:
+            stats["ill_formed_regenerated"] += 1
+            dropped[why] = dropped.get(why, 0) + 1
+    return out
 
 
 # ------------------------------------------------------------------- one case
@@ -865,14 +959,23 @@ def run(ctx):
         "value_checked", "value_skipped", "einstein_target_drift", "ed_cases",
         "ed_differs_from_target_respecting", "ed_value_checked",
         "ed_isolated_delta_known_finding", "ed_fragment_compared",
-        "heterogeneous_sum_skipped")}
+        "heterogeneous_sum_skipped", "ill_formed_regenerated")}
     run_specs(ctx, CORPUS, "corpus", stats)
     run_specs(ctx, exhaustive_specs(full=False), "exh", stats)
     if not quick:
         run_specs(ctx, exhaustive_specs(full=True), "exh3", stats)
-    run_specs(ctx, sampled_third(rng, 150 if quick else 600), "third", stats)
-    run_specs(ctx, [random_spec(rng) for _ in range(400 if quick else 2500)],
+    dropped = {}
+    for spec in CORPUS:
+        why = well_formed(U.build_expr(spec))
+        ctx.obligation("corpus input is well-formed", why is None,
+                       f"{why}: {json.dumps(spec)[:300]}")
+    run_specs(ctx, generate(ctx, lambda: sampled_third(rng, 1)[0],
+                            150 if quick else 600, stats, dropped),
+              "third", stats)
+    run_specs(ctx, generate(ctx, lambda: random_spec(rng),
+                            400 if quick else 2500, stats, dropped),
               "rnd", stats)
+    ctx.extra["c20_ill_formed_regenerated"] = dropped
     run_specs(ctx, [malformed_spec(rng) for _ in range(40 if quick else 150)],
               "mal", stats)
     ctx.extra["c20_stats"] = stats
